@@ -68,6 +68,13 @@ def new_list(it, items, elem=None):
 def new_dict(it, pytype='dict'):
     c = it.c
     r = c.fresh_ref('dict', pytype)
+    if '$map' in c.heap:
+        # a newly allocated dict is not yet stored in any dict
+        x = z3.Const('x!fr', Ref)
+        k = z3.Const('k!fr', StrV)
+        m = c.heap['$map']
+        c.assume(z3.ForAll([x, k], z3.Select(z3.Select(m, x), k) != r.e,
+                           patterns=[z3.Select(z3.Select(m, x), k)]))
     c.hset(r, '$has', z3.K(StrV, z3.BoolVal(False)))
     c.hset(r, '$len', z3.IntVal(0))
     return r
@@ -682,7 +689,7 @@ def call_builtin(it, b, args, kwargs, node):
             return ('range', c.to_int(args[0]))
         raise Unsupported('range with several arguments')
     if n == 'copy':
-        return args[0]
+        return args[0]          # copy.copy of a function object: the same behaviour (identity matters nowhere here)
     if n == 'setattr':
         o, a, v = args
         if isinstance(a, str):
